@@ -26,7 +26,10 @@ ASSUMPTIONS = ['lock-free protocols on std::atomic fields are assumed correct', 
 E = 'ephemeralnet::'
 SHARED = (E + 'Node::', E + 'network::KeyManager::', E + 'KademliaTable::', E + 'ChunkStore::', E + 'network::ReputationManager::',
           E + 'network::SessionManager::', E + 'network::RelayClient::', E + 'network::SwarmCoordinator::', E + 'SwarmCoordinator::',
-          E + 'network::NatTraversalManager::', E + 'crypto::CryptoManager::', E + 'Config::')
+          E + 'network::NatTraversalManager::', E + 'crypto::CryptoManager::', E + 'Config::',
+          # element types of the shared tables (reached through references / iterators into those tables)
+          E + 'network::SessionKeyContext::', E + 'ChunkRecord::', E + 'ChunkLocator::', E + 'KademliaTable::KeyShardRecord::',
+          E + 'Node::PendingFetchState::', E + 'Node::HandshakeRecord::', E + 'Node::ActiveUploadState::', E + 'Node::PendingUploadRequest::')
 ALIASES = {E + 'daemon::ControlServer::Impl::node_mutex_': 'node_mutex'}
 # transport plumbing: descriptors and ports read by loops that the owner wakes by closing them (frozen, one reason each)
 PLUMBING = {E + 'network::SessionManager::listen_socket_': 'listening descriptor closed by stop() to wake accept()',
